@@ -6,16 +6,23 @@ from the result, keeping summary / needs_to_manifest and merging seeded/history.
 import json, os, re, subprocess, sys, concurrent.futures as cf
 V = os.path.dirname(os.path.dirname(os.path.abspath(__file__)))
 args = sys.argv[1:]
-jobs = 2; checks_only = False; confirm_only = False
+jobs = 2; checks_only = False; confirm_only = False; rev = False; needc = False
 while args and args[0].startswith("--"):
     if args[0] == "--jobs": jobs = int(args[1]); args = args[2:]
     elif args[0] == "--checks-only": checks_only = True; args = args[1:]      # keep the recorded demo / repository-test confirmation
-    elif args[0] == "--confirm-only": confirm_only = True; args = args[1:]    # demo + repository tests only, checks kept as recorded
+    elif args[0] == "--confirm-only": confirm_only = True; args = args[1:]
+    elif args[0] == "--reverse": rev = True; args = args[1:]
+    elif args[0] == "--need-confirmation": needc = True; args = args[1:]   # only seeds whose recorded confirmation is incomplete    # demo + repository tests only, checks kept as recorded
     else: sys.exit("unknown option " + args[0])
 hist = json.load(open(os.path.join(V, "seeded", "history.json")))
 names = sorted(d for d in os.listdir(os.path.join(V, "seeded")) if os.path.isdir(os.path.join(V, "seeded", d)))
 if args:
     names = [n for n in names if any(n.startswith(a) for a in args)]
+def confirmed(n):
+    c = json.load(open(os.path.join(V, "seeded", n, "meta.json"))).get("confirmed_by_me") or {}
+    return c.get("demo_on_changed_tree_exit") not in (None, 0) and c.get("demo_on_unchanged_tree_exit") == 0 and (c.get("repository_tests_on_changed_tree") or {}).get("exit") == 0
+if needc: names = [n for n in names if not confirmed(n)]
+if rev: names.reverse()
 
 # besides the target check, the checks whose subject is adjacent (a complete 60 x 20 table costs a day of CPU time)
 NEIGHBOURS = {"C01": ["C02", "C05"], "C02": ["C01", "C12"], "C03": ["C04", "C05", "C19"], "C04": ["C03"], "C05": ["C01", "C03"], "C06": ["C10", "C12", "C19"], "C07": ["C08", "C09", "C10", "C17"],
@@ -27,7 +34,7 @@ def one(name):
     res = os.environ.get("SEED_RES_ROOT", "/tmp/seedfinal") + "/" + name
     os.makedirs(res, exist_ok=True)
     old = json.load(open(os.path.join(d, "meta.json")))
-    ids = ["all"] if os.environ.get("SEED_ALL_CHECKS") else [old["breaks_property"]] + NEIGHBOURS.get(old["breaks_property"], [])
+    ids = ["all"] if os.environ.get("SEED_ALL_CHECKS") else [old["breaks_property"]] + ([] if os.environ.get("SEED_TARGET_ONLY") else NEIGHBOURS.get(old["breaks_property"], []))
     if confirm_only: ids = []
     opts = ["--no-tests", "--no-demo"] if checks_only else []
     subprocess.run([os.path.join(V, "tools", "eval_seeded.sh"), d, res] + opts + ids, stdout=subprocess.DEVNULL, stderr=subprocess.DEVNULL)
@@ -43,6 +50,10 @@ def one(name):
         if m: conf["repository_tests_on_changed_tree"] = {"exit": int(m.group(1)), "summary": m.group(2)}
         m = re.match(r"check (C\d+) (\w+): exit=(\d+) (\d+) violation line\(s\) ?(.*)", l)
         if m: checks[m.group(1)] = {"tier": m.group(2), "exit": int(m.group(3)), "violation_lines": int(m.group(4)), "classes": [c for c in m.group(5).split(";") if c.strip()]}
+    # the other phase may have rewritten this meta.json meanwhile: take its part from the file as it is NOW
+    fresh = json.load(open(os.path.join(d, "meta.json")))
+    if checks_only: conf = fresh.get("confirmed_by_me", conf); old["confirmed_at_repo_head"] = fresh.get("confirmed_at_repo_head")
+    if confirm_only: checks = dict(fresh.get("checks_quick_tier", {}))
     prop = old["breaks_property"]
     rnd = "r4" if name.startswith("R4-") else "r3" if name.startswith("R3-") else "r2" if name.startswith("R2-") else "r1"
     h = hist.get(rnd, {}).get(prop, ["", ""])
